@@ -94,7 +94,7 @@ def run(ctx):
                         'both in Python and in Coq (raising or non-bool callables: C11)',
                         'temporaries are modelled by structured names (base variable + attribute path), an injective '
                         'abstraction of the textual "<obj>_isattr_<name>" names']
-    regenerate(ctx)
+    ctx.safe_regenerate(regenerate)
     proof_err = c01.prove_core(ctx, PROP)
     failures = 0
     try:
